@@ -111,10 +111,10 @@ fn components_to_ts(
     year: i32,
     month: i32,
     day: i32,
-    hour: u32,
-    minute: u32,
-    second: u32,
-    ms: u32,
+    hour: impl Into<i64>,
+    minute: impl Into<i64>,
+    second: impl Into<i64>,
+    ms: impl Into<i64>,
 ) -> f64 {
     // Handle 2-digit years (0-99 map to 1900-1999)
     let year = if (0..100).contains(&year) {
@@ -132,14 +132,18 @@ fn components_to_ts(
     let base_days = ymd_to_days(norm_year, norm_month, 1);
     let total_days = base_days + day as i64 - 1;
 
-    let time_ms = hour as i64 * MS_PER_HOUR
-        + minute as i64 * MS_PER_MINUTE
-        + second as i64 * MS_PER_SECOND
-        + ms as i64;
+    // Time components may be negative or overflow into the next unit (MakeTime);
+    // they are bounded here so that the sum cannot overflow.
+    const LIMIT: i64 = 10_000_000_000_000_000;
+    let bound = |v: i64| v.clamp(-LIMIT, LIMIT) as i128;
+    let time_ms = bound(hour.into()) * MS_PER_HOUR as i128
+        + bound(minute.into()) * MS_PER_MINUTE as i128
+        + bound(second.into()) * MS_PER_SECOND as i128
+        + bound(ms.into());
 
     // Out-of-range components are legal input: compute wide and clip to the range a Date
     // can represent (ECMAScript TimeClip) instead of overflowing.
-    let total = total_days as i128 * MS_PER_DAY as i128 + time_ms as i128;
+    let total = total_days as i128 * MS_PER_DAY as i128 + time_ms;
     if total.unsigned_abs() > 8_640_000_000_000_000 {
         return f64::NAN;
     }
@@ -332,6 +336,15 @@ pub fn init_date(interp: &mut Interpreter) {
         .set_property(date_key, JsValue::Object(constructor));
 }
 
+/// TimeClip: beyond +-8.64e15 ms is an invalid date, fractions are dropped
+fn time_clip(n: f64) -> f64 {
+    if n.is_finite() && n.abs() <= 8.64e15 {
+        crate::prelude::math::trunc(n) + 0.0
+    } else {
+        f64::NAN
+    }
+}
+
 pub fn date_constructor(
     interp: &mut Interpreter,
     this: JsValue,
@@ -374,7 +387,25 @@ pub fn date_constructor(
                 }
             }
             Some(JsValue::String(s)) => parse_date_string(s.as_ref()),
-            _ => f64::NAN,
+            Some(JsValue::Object(obj)) => {
+                // Another Date is copied; any other object is converted to a primitive
+                let copied = match obj.borrow().exotic {
+                    ExoticObject::Date { timestamp } => Some(timestamp),
+                    _ => None,
+                };
+                match copied {
+                    Some(ts) => ts,
+                    None => {
+                        let prim = interp.coerce_to_primitive(&JsValue::Object(obj.clone()), "default")?;
+                        match prim {
+                            JsValue::String(s) => parse_date_string(s.as_ref()),
+                            other => time_clip(other.to_number()),
+                        }
+                    }
+                }
+            }
+            Some(other) => time_clip(other.to_number()),
+            None => f64::NAN,
         }
     } else {
         // new Date(year, month, day?, hours?, minutes?, seconds?, ms?)
@@ -390,10 +421,10 @@ pub fn date_constructor(
         let year = args.first().map(|v| v.to_number()).unwrap_or(f64::NAN) as i32;
         let month = args.get(1).map(|v| v.to_number()).unwrap_or(0.0) as i32;
         let day = args.get(2).map(|v| v.to_number()).unwrap_or(1.0) as i32;
-        let hours = args.get(3).map(|v| v.to_number()).unwrap_or(0.0) as u32;
-        let minutes = args.get(4).map(|v| v.to_number()).unwrap_or(0.0) as u32;
-        let seconds = args.get(5).map(|v| v.to_number()).unwrap_or(0.0) as u32;
-        let ms = args.get(6).map(|v| v.to_number()).unwrap_or(0.0) as u32;
+        let hours = args.get(3).map(|v| v.to_number()).unwrap_or(0.0) as i64;
+        let minutes = args.get(4).map(|v| v.to_number()).unwrap_or(0.0) as i64;
+        let seconds = args.get(5).map(|v| v.to_number()).unwrap_or(0.0) as i64;
+        let ms = args.get(6).map(|v| v.to_number()).unwrap_or(0.0) as i64;
 
         components_to_ts(year, month, day, hours, minutes, seconds, ms)
     };
@@ -427,10 +458,10 @@ pub fn date_utc(
     let year = args.first().map(|v| v.to_number()).unwrap_or(f64::NAN) as i32;
     let month = args.get(1).map(|v| v.to_number()).unwrap_or(0.0) as i32;
     let day = args.get(2).map(|v| v.to_number()).unwrap_or(1.0) as i32;
-    let hours = args.get(3).map(|v| v.to_number()).unwrap_or(0.0) as u32;
-    let minutes = args.get(4).map(|v| v.to_number()).unwrap_or(0.0) as u32;
-    let seconds = args.get(5).map(|v| v.to_number()).unwrap_or(0.0) as u32;
-    let ms = args.get(6).map(|v| v.to_number()).unwrap_or(0.0) as u32;
+    let hours = args.get(3).map(|v| v.to_number()).unwrap_or(0.0) as i64;
+    let minutes = args.get(4).map(|v| v.to_number()).unwrap_or(0.0) as i64;
+    let seconds = args.get(5).map(|v| v.to_number()).unwrap_or(0.0) as i64;
+    let ms = args.get(6).map(|v| v.to_number()).unwrap_or(0.0) as i64;
 
     let timestamp = components_to_ts(year, month, day, hours, minutes, seconds, ms);
     Ok(Guarded::unguarded(JsValue::Number(timestamp)))
@@ -695,16 +726,14 @@ pub fn date_set_hours(
         return Ok(Guarded::unguarded(JsValue::Number(f64::NAN)));
     };
 
-    let new_hour = args.first().map(|v| v.to_number() as u32).unwrap_or(c.hour);
+    let new_hour = args.first().map(|v| v.to_number() as i64).unwrap_or(c.hour as i64);
     let new_min = args
         .get(1)
-        .map(|v| v.to_number() as u32)
-        .unwrap_or(c.minute);
+        .map(|v| v.to_number() as i64).unwrap_or(c.minute as i64);
     let new_sec = args
         .get(2)
-        .map(|v| v.to_number() as u32)
-        .unwrap_or(c.second);
-    let new_ms = args.get(3).map(|v| v.to_number() as u32).unwrap_or(c.ms);
+        .map(|v| v.to_number() as i64).unwrap_or(c.second as i64);
+    let new_ms = args.get(3).map(|v| v.to_number() as i64).unwrap_or(c.ms as i64);
 
     let new_ts = components_to_ts(
         c.year,
@@ -731,13 +760,11 @@ pub fn date_set_minutes(
 
     let new_min = args
         .first()
-        .map(|v| v.to_number() as u32)
-        .unwrap_or(c.minute);
+        .map(|v| v.to_number() as i64).unwrap_or(c.minute as i64);
     let new_sec = args
         .get(1)
-        .map(|v| v.to_number() as u32)
-        .unwrap_or(c.second);
-    let new_ms = args.get(2).map(|v| v.to_number() as u32).unwrap_or(c.ms);
+        .map(|v| v.to_number() as i64).unwrap_or(c.second as i64);
+    let new_ms = args.get(2).map(|v| v.to_number() as i64).unwrap_or(c.ms as i64);
 
     let new_ts = components_to_ts(
         c.year,
@@ -764,9 +791,8 @@ pub fn date_set_seconds(
 
     let new_sec = args
         .first()
-        .map(|v| v.to_number() as u32)
-        .unwrap_or(c.second);
-    let new_ms = args.get(1).map(|v| v.to_number() as u32).unwrap_or(c.ms);
+        .map(|v| v.to_number() as i64).unwrap_or(c.second as i64);
+    let new_ms = args.get(1).map(|v| v.to_number() as i64).unwrap_or(c.ms as i64);
 
     let new_ts = components_to_ts(
         c.year,
@@ -791,7 +817,7 @@ pub fn date_set_milliseconds(
         return Ok(Guarded::unguarded(JsValue::Number(f64::NAN)));
     };
 
-    let new_ms = args.first().map(|v| v.to_number() as u32).unwrap_or(c.ms);
+    let new_ms = args.first().map(|v| v.to_number() as i64).unwrap_or(c.ms as i64);
 
     let new_ts = components_to_ts(
         c.year,
